@@ -46,6 +46,12 @@ def started(o):
 
 
 def run(ctx: Ctx) -> Result:
+    # adversarial witnesses recurse: run with a deep Python stack so that known finding K3 (RecursionError observable through
+    # TRY at the default recursion limit) does not leak into this property's comparisons
+    return vmrun.in_big_thread(_run, ctx)
+
+
+def _run(ctx: Ctx) -> Result:
     res = Result(rule=RULE)
     rng = ctx.sub_rng('c05')
     B = Bench(ctx, res); T = B.T
@@ -200,6 +206,31 @@ def run(ctx: Ctx) -> Result:
         scriptpath('one bit of the root in the lock flipped', code, pk, lk2)
         okk, o, _ = auth([wk.bytes, lk2], sf)
         if okk: B.viol('key path: honest witness against a lock whose root has one bit flipped', case([wk.bytes, lk2]), False, o[:80])
+        # ---- history: taproot instructions the witness itself runs before the lock must not help a forged pair
+        # (point subtraction: K = root - clamp(sha256(A || sha256(M))) * G would recompute to the root only with the tweak of (A, M))
+        aseed = V.rbytes(rng, 32); A = bytes(SigningKey(aseed).verify_key)
+        M = MARK + T.Script.from_src('true').bytes
+        tA = int.from_bytes(hashlib.sha256(A + hashlib.sha256(M).digest()).digest(), 'little') & (2**255 - 1)
+        K = ed.enc(ed.add(ed.dec(root), ed.neg(ed.mul(tA, ed.B))))
+        rootA = ed.taproot_root(A, M)
+        prime = push(M) + push(A) + push(rootA) + bytes([91, 0]) + bytes([32])          # attacker's own script-spend, result dropped with VERIFY
+        for what, pre in (('forged key K = root - t(A,M)*G, no history', b''), ('the same after the witness ran its own taproot script-spend of (A, M)', prime),
+                          ('after the witness ran the victim\'s root against a wrong pair', push(M) + push(A) + push(root) + bytes([91, 0]) + bytes([6]))):
+            w = pre + push(M) + push(K)
+            ok, o, tapes = auth([w, lock.bytes], sf)
+            res.note_case((seed, code, 'history', what))
+            if ok or (tapes and M in tapes[2 + (1 if pre == prime else 0):] and pre != prime and started(o)):
+                B.viol(f'script path with history: {what}: accepted', case([w, lock.bytes]), False, o[:80])
+            elif pre == prime and tapes.count(M) > 1:
+                B.viol(f'script path with history: {what}: the forged pair\'s script ran', case([w, lock.bytes]), 'not started', [t.hex()[:40] for t in tapes])
+        # ---- key path when the witness has used the whole call budget: the native instruction needs no call
+        kcl = rng.choice([1, 2, 3, 128])
+        burn = T.Script.from_src('def 0 { true verify }').bytes + bytes([42, 0]) * kcl
+        ccfg = vmrun.Cfg(now=B.now, call_limit=kcl)
+        ok, o, _ = auth([burn + wk.bytes, lock.bytes], sf, ccfg)
+        res.note_case((seed, 'burned', kcl))
+        if not ok:
+            B.viol(f'key path: valid signature after the witness made exactly callstack_limit = {kcl} calls', {**case([burn + wk.bytes, lock.bytes]), 'limits': ccfg.line()}, True, o[:80])
 
         # ---- native vs non-native
         cache = {**sf}
